@@ -336,6 +336,47 @@ BOT_METHODS = [
 ]
 
 
+C2_DIR = "simulator/system/applications/red_applications/c2/"
+C2_METHODS = [
+    (C2_DIR + "abstract_c2.py", "AbstractC2", ["apply_timestep", "_reset_c2_connection", "_resolve_keep_alive", "_check_connection", "receive"]),
+    (C2_DIR + "c2_beacon.py", "C2Beacon", ["_confirm_remote_connection", "_handle_keep_alive"]),
+    (C2_DIR + "c2_server.py", "C2Server", ["_confirm_remote_connection", "_handle_keep_alive"]),
+]
+
+
+def str_enum(rel: str, name: str) -> List[Tuple[str, str]]:
+    cls = class_def(parse(rel), name)
+    out = [(st.targets[0].id, st.value.value) for st in cls.body
+           if isinstance(st, ast.Assign) and isinstance(st.value, ast.Constant) and isinstance(st.value.value, str)]
+    if not out:
+        raise Unrecognised(f"enum {name} has no string members")
+    return out
+
+
+def c2_dispatch() -> List[Tuple[str, str]]:
+    """the `if command == C2Command.X: return self._return_command_output(command_output=self.<handler>(payload), …)` chain of
+    `C2Beacon._handle_command_input` as (command member, handler)"""
+    fn = find_method(class_def(parse(C2_DIR + "c2_beacon.py"), "C2Beacon"), "_handle_command_input")
+    chain = next((st for st in body_no_doc(fn) if isinstance(st, ast.If) and ast.unparse(st.test).startswith("command == C2Command.")), None)
+    if chain is None:
+        raise Unrecognised("C2Beacon._handle_command_input: dispatch chain not found")
+    out = []
+    cur = chain
+    while True:
+        m = re.fullmatch(r"command == C2Command\.(\w+)", ast.unparse(cur.test))
+        body = [x for x in cur.body if not is_log(x)]
+        h = re.fullmatch(r"return self\._return_command_output\(command_output=self\.(\w+)\(payload\), session_id=session_id\)",
+                         ast.unparse(body[0])) if len(body) == 1 else None
+        if not m or not h:
+            raise Unrecognised(f"C2Beacon._handle_command_input: branch {ast.unparse(cur.test)}")
+        out.append((m.group(1), h.group(1)))
+        if len(cur.orelse) == 1 and isinstance(cur.orelse[0], ast.If):
+            cur = cur.orelse[0]
+            continue
+        break
+    return out
+
+
 def int_enum(rel: str, name: str) -> List[Tuple[str, int]]:
     cls = class_def(parse(rel), name)
     out = [(st.targets[0].id, st.value.value) for st in cls.body
@@ -377,6 +418,25 @@ def emit() -> str:
     L.append("def botBodies : List (String × List String) := [\n  " + ",\n  ".join(rows) + "]")
     for nm, rel, cls in (("dosStages", BOT_METHODS[0][0], "DoSAttackStage"), ("dmStages", BOT_METHODS[1][0], "DataManipulationAttackStage")):
         L.append(f"def {nm} : List (String × Nat) := [" + ", ".join(f'("{k}", {v})' for k, v in int_enum(rel, cls)) + "]")
+    L.append("")
+    L.append("/-- normalised bodies of the C2 suite's connection handling -/")
+    rows = []
+    for rel, cls, meths in C2_METHODS:
+        c = class_def(parse(rel), cls)
+        for m in meths:
+            rows.append(f"({lean_str(cls + '.' + m)}, [" + ", ".join(lean_str(x) for x in norm_stmts(find_method(c, m))) + "])")
+    L.append("def c2Bodies : List (String × List String) := [\n  " + ",\n  ".join(rows) + "]")
+    L.append("def c2Commands : List (String × String) := [" + ", ".join(f'("{k}", "{v}")' for k, v in str_enum(C2_DIR + "abstract_c2.py", "C2Command")) + "]")
+    L.append("def c2Payloads : List (String × String) := [" + ", ".join(f'("{k}", "{v}")' for k, v in str_enum(C2_DIR + "abstract_c2.py", "C2Payload")) + "]")
+    L.append("/-- `C2Beacon._handle_command_input`: which handler answers which command -/")
+    L.append("def c2Dispatch : List (String × String) := [" + ", ".join(f'("{k}", "{v}")' for k, v in c2_dispatch()) + "]")
+    kf = next(st for st in ast.walk(class_def(parse(C2_DIR + "abstract_c2.py"), "AbstractC2"))
+              if isinstance(st, ast.AnnAssign) and ast.unparse(st.target) == "keep_alive_frequency")
+    mfreq = re.search(r"default=(\d+), ge=(\d+)", ast.unparse(kf.value))
+    if not mfreq:
+        raise Unrecognised("AbstractC2.ConfigSchema.keep_alive_frequency is not Field(default=…, ge=…)")
+    L.append(f"def c2KeepAliveDefault : Nat := {mfreq.group(1)}")
+    L.append(f"def c2KeepAliveMin : Nat := {mfreq.group(2)}")
     L.append("")
     ports = port_lookup()
     # HTTP status codes the web model uses
